@@ -97,7 +97,11 @@ def make_paths_harness(n_segments):
         mount = g.pick('mount', [None, '/static'])
         entry = g.pick('entry', ['http', 'direct'])
         nseg = g.pick('nseg', list(range(1, n_segments + 1)))
-        segs = [g.pick('seg%d' % i, SEGMENTS) for i in range(nseg)]
+        segs = [g.pick('seg%d' % i, SEGMENTS + ['<ABS-SECRET>', '<ABS-PARENT>']) for i in range(nseg)]
+        # an encoded slash followed by an absolute path: decodes to an absolute path, which os.path.join would take as is
+        from urllib.parse import quote as _q
+        segs = [('%2F' + _q(os.path.join(t['parent'], 'secret.txt').lstrip('/'), safe='')) if x == '<ABS-SECRET>' else
+                (('%2F' + _q(t['parent'].lstrip('/'), safe='')) if x == '<ABS-PARENT>' else x) for x in segs]
         path = (mount or '') + '/' + '/'.join(segs)
         dirlisting = g.flag('dirlisting')
         rig = Rig(ST.Static, {'path': mount, 'docroot': t['docroot'], 'dirlisting': dirlisting})
@@ -162,7 +166,7 @@ def make_paths_harness(n_segments):
 
 RANGES = ['bytes=0-0', 'bytes=0-', 'bytes=-1', 'bytes=-0', 'bytes=5-2', 'bytes=0-100', 'bytes=100-', 'bytes=-100', 'bytes=', 'bytes=x-y',
           'bytes=2-4', 'bytes=9-9', 'bytes=10-12', 'bytes=0-0,2-3', 'bytes=0-5,3-8', 'bytes=-', 'bytes=1', 'lines=0-1', 'bytes=0-0,-1', 'bytes= 1 - 2 ',
-          'bytes=4-', 'bytes=-3', 'bytes=1-1,1-1', 'bytes=5-7,0-2', 'bytes=0-4,2-6', 'bytes=-3,0-2', 'bytes=0-2,6-8,3-5', 'bytes=0-1,2-3']
+          'bytes=4-', 'bytes=-3', 'bytes=1-1,1-1', 'bytes=5-7,0-2', 'bytes=0-4,2-6', 'bytes=-3,0-2', 'bytes=0-2,6-8,3-5', 'bytes=0-1,2-3', 'bytes=10-', 'bytes=1-', 'bytes=10-,0-0', 'bytes=12-,-2']
 
 
 def rfc_one(p, n):
@@ -287,6 +291,9 @@ def make_ranges_harness():
                 g.fail('full-body-mismatch', w, detail)
             if kind[0] in ('ok', 'multi'):
                 g.fail('satisfiable-range-ignored', w, detail)
+            if kind[0] == 'unsat' and spec.startswith('bytes=') and n > 0:
+                # well-formed but beyond the file: the RFC's answer is 416 with `bytes */length`, the full file is for malformed headers
+                g.fail('unsatisfiable-range-answered-with-full-file', w, detail)
         else:
             g.fail('unexpected-status', w, detail)
     return harness
